@@ -333,21 +333,25 @@ class CMapParser(PSStackParser[PSKeyword]):
             return
 
         if token is self.KEYWORD_DEF:
-            try:
-                ((_, k), (_, v)) = self.pop(2)
-                self.cmap.set_attr(literal_name(k), v)
-            except PSSyntaxError:
-                pass
+            operands = self.pop(2)
+            if len(operands) == 2:  # else: "def" without key and value
+                try:
+                    ((_, k), (_, v)) = operands
+                    self.cmap.set_attr(literal_name(k), v)
+                except PSSyntaxError:
+                    pass
             return
 
         if token is self.KEYWORD_USECMAP:
-            try:
-                ((_, cmapname),) = self.pop(1)
-                self.cmap.use_cmap(CMapDB.get_cmap(literal_name(cmapname)))
-            except PSSyntaxError:
-                pass
-            except CMapDB.CMapNotFound:
-                pass
+            operands = self.pop(1)
+            if len(operands) == 1:  # else: "usecmap" without a name
+                try:
+                    ((_, cmapname),) = operands
+                    self.cmap.use_cmap(CMapDB.get_cmap(literal_name(cmapname)))
+                except PSSyntaxError:
+                    pass
+                except CMapDB.CMapNotFound:
+                    pass
             return
 
         if token is self.KEYWORD_BEGINCODESPACERANGE:
